@@ -74,6 +74,8 @@ def seq_alphabet():
         ["setdefault", "a", "v"], ["setdefault", "A", "w\r"], ["setdefault", "c\r", "v"], ["setdefault", "c", "x\0"],
         ["update", [["a", "v"], ["A", "w\r"], ["a", "z"]]], ["update", [["b\n", "v"]]], ["update", [["c", "u"], ["a", "t"]]],
         ["del", "a"], ["pop", "A"], ["popd", "b\n", "d"], ["popitem"], ["clear"],
+        ["update", [["a", "v"], ["A", "w\r"], ["c", "z"]], "headers"], ["update", [["d\n", "v"], ["a", "y"]], "mheaders"],
+        ["update", [["c", "u"], ["a", "t\0"]], "dict"],
     ]
 
 
@@ -102,7 +104,7 @@ def rand_op(rng, names):
     if kind in ("del", "pop"):
         return [kind, nm()]
     if kind == "update":
-        return [kind, [[nm(), rand_str(rng, 3, 0.15)] for _ in range(rng.randrange(0, 4))]]
+        return [kind, [[nm(), rand_str(rng, 3, 0.15)] for _ in range(rng.randrange(0, 4))]] + rng.choice([[], [], ["dict"], ["headers"], ["mheaders"]])
     return [kind]
 
 
@@ -148,6 +150,8 @@ def cases(tier, rng):
             for kind in ("set", "append", "setdefault"):
                 yield "single-op", ["resp", init, [[kind, k, v]], []]
             yield "single-op", ["resp", init, [["update", [["q", "0"], [k, v], ["r", "1"]]]], []]
+            for how in ("dict", "headers", "mheaders"):
+                yield "single-op", ["resp", init, [["update", [["q", "0"], [k, v], ["r", "1"]], how]], []]
     # (b) operation sequences
     ops = seq_alphabet()
     depth = 3 if quick else 4
@@ -209,6 +213,33 @@ def search_cases(tier, rng, mism):
     yield from cases("thorough" if tier == "quick" else tier, rng)
 
 
+# update(other): `other` may be a list of pairs (the default here), a dict, keyword arguments' dict, or a Headers /
+# MutableHeaders object (whose constructor lower-cases the names, folds repeats and checks nothing).  Whatever it is,
+# MutableMapping.update stores `other`'s items one by one through __setitem__.  ["update", pairs, how]: how in
+# "dict" | "headers" | "mheaders"; absent = the pair list itself.
+def update_source(o):
+    pairs = [(k, v) for k, v in o[1]]
+    how = o[2] if len(o) > 2 else "list"
+    if how == "list":
+        return pairs
+    if how == "dict":
+        return dict(pairs)
+    from baize.datastructures import Headers, MutableHeaders
+    return (Headers if how == "headers" else MutableHeaders)(pairs)
+
+
+def update_pairs(o):
+    """the (name, value) items the update stores, in order"""
+    src = update_source(o)
+    return [[k, v] for k, v in (src.items() if hasattr(src, "items") else src)]
+
+
+def ENCODE(case):
+    if case[0] == "resp" and any(o[0] == "update" and len(o) > 2 for o in case[2]):
+        case = [case[0], case[1], [["update", update_pairs(o)] if o[0] == "update" else o for o in case[2]]] + list(case[3:])
+    return core.enc_line(case)
+
+
 # ------------------------------------------------------------------ implementation driver
 
 def _exc(e):
@@ -240,7 +271,7 @@ def _apply(m, o):
             m.append(o[1], o[2])
             return []
         if name == "update":
-            m.update([(k, v) for k, v in o[1]])
+            m.update(update_source(o))
             return []
         if name == "setdefault":
             return ["v", m.setdefault(o[1], o[2])]
@@ -497,6 +528,7 @@ def oracle_resp(case, obs):
             elif not d and rejected:
                 return ("clean-setdefault-rejected", "%r raised ValueError on mapping %r" % (o, before))
         elif name == "update":
+            o = ["update", update_pairs(o)]
             idx = [i for i, (k, v) in enumerate(o[1]) if dirty(k) or dirty(v)]
             if idx and not rejected:
                 return ("dirty-update-not-rejected", "%r returned %r, mapping %r -> %r" % (o, r, before, after))
@@ -635,7 +667,7 @@ def shrink(case):
         for i, o in enumerate(ops):
             if o[0] == "update":
                 for j in range(len(o[1])):
-                    yield ["resp", init, ops[:i] + [["update", o[1][:j] + o[1][j + 1:]]] + ops[i + 1:], cookies]
+                    yield ["resp", init, ops[:i] + [["update", o[1][:j] + o[1][j + 1:]] + o[2:]] + ops[i + 1:], cookies]
             else:
                 for pos in range(1, len(o)):
                     for s in _shorter(o[pos]):
